@@ -325,8 +325,8 @@ def _observe_scale(data, order, plan):
         for n in order:
             depth[n] = P._comp_depth(font["glyf"], n, memo)
             g = font["glyf"][n]
-            if g.isComposite() and any(hasattr(c, "transform") for c in g.components):
-                transformed.add(n)
+            if g.isComposite() and any(hasattr(c, "transform") or hasattr(c, "firstPt") for c in g.components):
+                transformed.add(n)      # 2x2 transform or point matching: HarfBuzz outline numbers are not judged, only their structure
         for n in order:  # a glyph is "transformed" if anything below it is
             g = font["glyf"][n]
             if g.isComposite() and any(c.glyphName in transformed for c in g.components):
@@ -1007,7 +1007,7 @@ def judge_results(chk, results):
     lean = [_lean(t) for t in traces] + nums
     index = {id(t): i for i, t in enumerate(lean)}
     before = chk.traces_validated
-    rej = chk.judge("Trace_C17", lean, chunk=1500 if chk.tier == "quick" else 1000, multi=True, timeout=1800)
+    rej = chk.judge("Trace_C17", lean, chunk=3000 if chk.tier == "quick" else 1000, multi=True, timeout=1800)
     verdicts = [set() for _ in traces]
     numbad = {}     # index of nums trace -> {position: "bad" | "overflow"}
     for lt, clauses in rej:
